@@ -8,7 +8,8 @@ from . import etrace
 def judge_calls(res, pid, module, traces, workdir=None, sig_of=None, inexact_is_violation=True, monitors=(), what=None, sample=2):
     workdir = workdir or os.path.join(OUT, pid, module)
     verdicts, stats, byid = etrace.validate(traces, workdir, monitors=list(monitors), module=module,
-                                            exact_expected=(lambda t: True) if inexact_is_violation else None)
+                                            exact_expected=inexact_is_violation if callable(inexact_is_violation) else
+                                            ((lambda t: True) if inexact_is_violation else None))
     res.states += stats["distinct"]
     res.transitions += stats["states"]
     res.tlc_runs.append({"run": "trace validation (%s, %d processes)" % (module, stats["runs"]), "states_generated": stats["states"],
